@@ -467,35 +467,47 @@ def normLoc (u : Str) : Loc :=
         .url (sGitSsh ++ [58, 47, 47] ++ up ++ qh ++ qp)
       | _, _, _ => .encodeError
 
-/-- `git_url_to_bzr_url(location, branch=…, ref=…)` -/
-def gitUrlToBzrUrl (loc : Str) (branch : Option Str) (ref : Option NBytes) : Except Err Str :=
+/-- what `git_url_to_bzr_url` makes of its `branch` / `ref` arguments before
+writing them: `if ref == b"HEAD": ref = branch = None`; a non-empty ref that
+`ref_to_branch_name` accepts becomes a branch name (`ValueError`, which includes
+`UnicodeDecodeError`, keeps the ref); an empty ref is ignored -/
+def normBR (branch : Option Str) (ref : Option NBytes) : Option Str × Option NBytes :=
+  match ref with
+  | some r =>
+    if r = headRef ∨ r = [] then (none, none)
+    else match refToBranchName (some r) with
+      | .ok b => (b, none)
+      | .error _ => (none, some r)
+  | none => (branch, none)
+
+/-- the `branch` / `ref` segment parameter `git_url_to_bzr_url` appends to the
+(normalised) location -/
+def addRefParams (location : Str) (branch : Option Str) (ref : Option NBytes) : Except Err Str :=
+  match normBR branch ref with
+  | (_, some r) =>
+    (match joinSegParam location kRef (pctEncode [] r) with | some x => .ok x | none => .error .value)
+  | (none, none) => .ok location
+  | (some b, none) =>
+    if b = [] then .ok location else
+      match escapeStr b with
+      | some e => (match joinSegParam location kBranch e with | some x => .ok x | none => .error .value)
+      | none => .error .unicodeEncode
+
+/-- `git_url_to_bzr_url(location, branch=…, ref=…)`.  A location that is neither
+a URL with a git scheme nor rsync-style (a local path) is kept as it is and
+still receives the parameters.  `legacy = true` is the code as found: such a
+location is returned early, *without* the parameters (finding F15). -/
+def gitUrlToBzrUrlG (legacy : Bool) (loc : Str) (branch : Option Str) (ref : Option NBytes) :
+    Except Err Str :=
   if branch ≠ none ∧ ref ≠ none then .error .value
   else
     match normLoc loc with
-    | .unchanged => .ok loc
+    | .unchanged => if legacy then .ok loc else addRefParams loc branch ref
     | .encodeError => .error .unicodeEncode
-    | .url location =>
-      -- `if ref == b"HEAD": ref = branch = None`; `if ref:` try to turn it into a
-      -- branch name (`ValueError`, which includes `UnicodeDecodeError`, keeps the ref)
-      let br : Option Str × Option NBytes :=
-        match ref with
-        | some r =>
-          if r = headRef ∨ r = [] then (none, none)
-          else match refToBranchName (some r) with
-            | .ok b => (b, none)
-            | .error _ => (none, some r)
-        | none => (branch, none)
-      match br.2 with
-      | some r =>
-        (match joinSegParam location kRef (pctEncode [] r) with | some x => .ok x | none => .error .value)
-      | none =>
-        match br.1 with
-        | none => .ok location
-        | some b =>
-          if b = [] then .ok location else
-            match escapeStr b with
-            | some e => (match joinSegParam location kBranch e with | some x => .ok x | none => .error .value)
-            | none => .error .unicodeEncode
+    | .url location => addRefParams location branch ref
+
+def gitUrlToBzrUrl := gitUrlToBzrUrlG false
+def gitUrlToBzrUrlLegacy := gitUrlToBzrUrlG true
 
 /-- `bzr_url_to_git_url` — the inverse of `git_url_to_bzr_url`: the `branch`
 parameter unescaped, the `ref` parameter percent-decoded to bytes. -/
@@ -590,7 +602,8 @@ def setParent (c : Cfg) (name : Str) (loc : Str) : Except Err Cfg :=
           | none => .error .unicodeEncode
 
 /-- `_get_related_merge_branch` reading `branch.<section>.merge` -/
-def getParentWith (c : Cfg) (name : NBytes) (mergeSection : NBytes) : Except Err (Option Str) :=
+def getParentWith (legacyUrl : Bool) (c : Cfg) (name : NBytes) (mergeSection : NBytes) :
+    Except Err (Option Str) :=
   let remote := getOrigin c name
   match cfgGet c (bRemote, remote, bUrl) with
   | none => .ok none
@@ -601,19 +614,19 @@ def getParentWith (c : Cfg) (name : NBytes) (mergeSection : NBytes) : Except Err
       let ref := match cfgGet c (bBranch, mergeSection, bMerge) with
         | some r => r
         | none => headRef
-      (gitUrlToBzrUrl location none (some ref)).map some
+      (gitUrlToBzrUrlG legacyUrl location none (some ref)).map some
 
 /-- `GitBranch._get_parent_location()`: the merge ref is read from the section
 `set_parent` writes, `[branch "<name>"]`. -/
 def getParentLocation (c : Cfg) (name : Str) : Except Err (Option Str) :=
   match encodeUtf8 false name with
   | none => .error .unicodeEncode
-  | some nm => getParentWith c nm nm
+  | some nm => getParentWith false c nm nm
 
 /-- as found (F14): the merge ref is read from `[branch "<remote>"]`. -/
 def getParentLocationLegacy (c : Cfg) (name : Str) : Except Err (Option Str) :=
   match encodeUtf8 false name with
   | none => .error .unicodeEncode
-  | some nm => getParentWith c nm (getOrigin c nm)
+  | some nm => getParentWith true c nm (getOrigin c nm)
 
 end BreezyVerif.C36
